@@ -485,8 +485,81 @@ def small_opaque_case(chk, k):
     return Verdict(HELD, name, obs=obs, nontrivial=nassert >= 6, key=name)
 
 
+TDB_POOL = [
+    # (name, C declaration, the user's replacement: right layout, Copy + Clone and nothing else)
+    ("handle_t", "typedef unsigned long handle_t;", "#[repr(transparent)] #[derive(Copy, Clone)] pub struct handle_t(pub u64);"),
+    ("small_t", "typedef short small_t;", "#[repr(transparent)] #[derive(Copy, Clone)] pub struct small_t(pub i16);"),
+    ("fp_t", "typedef float fp_t;", "#[repr(transparent)] #[derive(Copy, Clone)] pub struct fp_t(pub f32);"),
+    ("inner_t", "struct Inner { int a; int b; };\ntypedef struct Inner inner_t;", "#[repr(C)] #[derive(Copy, Clone)] pub struct inner_t(pub [u32; 2]);"),
+    ("quad_t", "typedef int quad_t[4];", "#[repr(C)] #[derive(Copy, Clone)] pub struct quad_t(pub [i32; 4]);"),
+    ("Blk", "struct Blk { long x; };", "#[repr(C)] #[derive(Copy, Clone)] pub struct Blk(pub [u64; 1]);"),
+    ("chain_t", "typedef unsigned char base_t;\ntypedef base_t chain_t;", "#[repr(transparent)] #[derive(Copy, Clone)] pub struct chain_t(pub u8);"),
+]
+TDB_FLAGSETS = [["--impl-debug"], ["--impl-debug", "--impl-partialeq", "--with-derive-partialeq"], ["--with-derive-default", "--impl-debug"],
+                ["--impl-partialeq", "--with-derive-partialeq", "--with-derive-eq", "--with-derive-hash"], [],
+                ["--impl-debug", "--with-derive-default", "--with-derive-hash", "--with-derive-partialeq", "--impl-partialeq", "--with-derive-partialord"]]
+
+
+def typedef_block_case(chk, i):
+    """Blocklisted TYPEDEFS (of scalars, records, arrays, other typedefs) and records, replaced by the user with types that implement nothing
+    but Copy/Clone, used by value / in arrays / behind pointers by containers that do and do not get hand-written impls (--impl-debug,
+    --impl-partialeq): the bindings plus the user's definitions compile, i.e. no derive and no hand-written impl goes through the
+    blocklisted name."""
+    rng = chk.rng("tdb", i)
+    d = chk.dir("tdb%d" % (i % 32))
+    pool = list(TDB_POOL)
+    rng.shuffle(pool)
+    blocked = pool[:rng.randint(1, 3)]
+    plain = pool[len(blocked):len(blocked) + 2]
+    decls = [p_[1] for p_ in pool]
+    conts = []
+    for k in range(rng.randint(3, 7)):
+        mem = []
+        for j in range(rng.randint(1, 3)):
+            tn = rng.choice(blocked + blocked + plain)[0]
+            tn_c = ("struct Blk" if tn == "Blk" else tn)
+            form = rng.choice(["value", "value", "array", "array2", "pointer"])
+            mem.append({"value": "%s m%d;", "array": "%s m%d[3];", "array2": "%s m%d[2][2];", "pointer": "%s *m%d;"}[form] % (tn_c, j))
+        if rng.random() < 0.6:
+            mem.append(rng.choice(["double big[40];", "char name[64];", "long pad[33];"]))      # no derived Debug / Default / PartialEq: hand-written ones
+        mem.append("int tail;")
+        conts.append("%s C%d { %s };" % (rng.choice(["struct", "struct", "union"]), k, " ".join(mem)))
+    text = "\n".join(decls + conts) + "\n"
+    hdr = write(os.path.join(d, "tdb%d.h" % i), text)
+    flags = list(rng.choice(TDB_FLAGSETS)) + ["--no-layout-tests"]
+    kind = rng.choice(["--blocklist-type", "--blocklist-type", "--blocklist-item"])
+    for b in blocked:
+        flags += [kind, b[0], "--raw-line", b[2]]
+    name = "typedef-block-%d" % i
+    o = os.path.join(d, "tdb%d.rs" % i)
+    rc, so, se, _ = htypes.bindgen(hdr, flags, o)
+    if rc != 0:
+        return Verdict(INCONCLUSIVE, name, "bindgen failed: " + se[-300:])
+    btext = open(o).read()
+    files = {"header.h": text, "flags.txt": " ".join(flags), "bindings.rs": btext}
+    obs = {"typedef_block_headers": 1, "blocklisted_typedefs": sum(1 for b in blocked if b[0] != "Blk"), "hand_written_impls": btext.count("impl ::std::fmt::Debug") + btext.count("impl PartialEq")}
+    w = write(os.path.join(d, "tdbw%d.rs" % i), "#![allow(warnings)]\n" + btext)
+    rcr, sor, ser, _ = sh(["rustc", "--edition", "2021", "--crate-type", "lib", "--emit=metadata", "-o", os.path.join(d, "tdbw%d.rmeta" % i), w], timeout=120)
+    bn = {b[0] for b in blocked}
+    if rcr != 0:
+        named = set(re.findall(r"`(\w+)` doesn't implement `\w+`", ser)) | set(re.findall(r"the trait bound `(\w+): \w+` is not satisfied", ser)) | set(
+            re.findall(r"binary operation `[=!]=` cannot be applied to type `(?:\[)?(\w+)", ser)) | set(re.findall(r"can't compare `(\w+)`", ser))
+        if named & bn:
+            return Verdict(VIOLATED, name, "the bindings need a trait of blocklisted %s that the user's definition (right layout, Copy + Clone) does not have: %s" % (
+                sorted(named & bn), htypes.first_error(ser)[:600]), files=files, obs=obs)
+        return Verdict(INCONCLUSIVE, name, "bindings do not compile (C01's): " + htypes.first_error(ser)[:300], obs=obs)
+    # bindgen itself defines none of the blocklisted names
+    inv = htypes.inventory(o)
+    if "error" not in inv:
+        for it in inv["items"]:
+            if it["kind"] in ("struct", "union", "type") and it["name"] in bn and "pub [" not in it.get("tokens", "") and "(pub" not in it.get("tokens", ""):
+                return Verdict(VIOLATED, name, "blocklisted %s is defined by bindgen" % it["name"], files=files, obs=obs)
+    return Verdict(HELD, name, obs=obs, nontrivial=True, key=name)
+
+
 def run(chk):
     chk.map(lambda k: small_opaque_case(chk, k), range(5))
+    chk.map(lambda i: typedef_block_case(chk, i), range(chk.pick(40, 400)), budget_s=chk.pick(200, 900))
     chk.map(lambda i: case(chk, i), range(chk.pick(40, 400)), budget_s=chk.pick(500, 3000))
     chk.map(lambda i: vouch_case(chk, i), range(chk.pick(40, 300)), budget_s=chk.pick(200, 900))
     chk.map(lambda i: cxx_case(chk, i), range(chk.pick(60, 500)), budget_s=chk.pick(200, 900))
@@ -499,7 +572,9 @@ def run(chk):
              "types expose only the blob (no fields, accessors, methods), direct containers of blocklisted types derive none of the nine traits. "
              "C++ case = (generated class graph with bases, virtual methods, templates; 1..2 classes made opaque, preferring bases and by-value "
              "members of other classes): every layout assertion (clang's numbers) that evaluates without the selection must still evaluate "
-             "with it, and the opaque class exposes only its blob.",
+             "with it, and the opaque class exposes only its blob. Typedef case = blocklisted typedefs (of scalars, records, arrays, "
+             "typedefs) and records replaced by Copy+Clone-only user types, used by value / in arrays / behind pointers in containers with "
+             "and without hand-written impls (--impl-debug / --impl-partialeq): bindings + user definitions compile.",
         assumptions=["as C02", "vouching (ParseCallbacks::blocklisted_type_implements_trait => Yes for every trait) is exercised through vf-driver on "
                      "plain-data graphs: without vouching direct containers derive nothing, with it they derive what C08's specification gives "
                      "when the blocklisted member is treated as supporting everything"])
